@@ -413,8 +413,8 @@ def run_tree(cssutils, c):
             sheet = parser.parseString(c.root, encoding=c.override, href=c.href)
         else:
             sheet = parser.parseUrl(c.href, encoding=c.override)
-    except (LookupError, AttributeError, UnicodeDecodeError) as e:
-        return {'status': type(e).__name__, 'log': log}
+    except (LookupError, AttributeError, UnicodeDecodeError, RecursionError) as e:
+        return {'status': type(e).__name__, 'log': log[:50]}
     finally:
         cssutils.log.raiseExceptions = True
     if sheet is None:
